@@ -55,6 +55,10 @@ Proof. exact codec_length_checked. Qed.
 Theorem C03_source_refusal_before_handoff : encoder_paths_refuse_before_handoff = true.
 Proof. exact paths_encoder_refuse_before_handoff. Qed.
 
+(* on every path through the writer loop as it is in the source now the only calls are the notifier and ONE e.writer.Write per queue item (and close on the way out): no buffering layer, no second write, no flush *)
+Theorem C03_source_one_write_per_item : writer_loop_vocabulary = true.
+Proof. exact paths_writer_vocabulary. Qed.
+
 Print Assumptions C03_whole_frames_and_refusals.
 Print Assumptions C03_abandon_writes_nothing.
 Print Assumptions C03_oversize_refused.
@@ -63,3 +67,4 @@ Print Assumptions C03_ctx_unblocks.
 Print Assumptions C03_generated_ok.
 Print Assumptions C03_every_frame_passes_the_length_check.
 Print Assumptions C03_source_refusal_before_handoff.
+Print Assumptions C03_source_one_write_per_item.
